@@ -225,6 +225,23 @@ def device_membership(ctx, rng):
         sc = dev.scale(xfact=-1.5, yfact=2.0)
         if abs(sc.film.area - 3.0 * dev.film.area) > 1e-9 * dev.film.area:
             ctx.fail("area:scale", "Device.scale does not multiply the film area by |fx fy|", dict(device=kind))
+        # copies of a device share nothing with it: polygons, probe points, layer
+        for wm_ in (True, False):
+            cp_ = dev.copy(with_mesh=wm_)
+            ctx.case(("device-copy", kind, wm_), nontrivial=True)
+            shared_ = [p_.name for p_, q_ in zip(cp_.polygons, dev.polygons) if np.shares_memory(p_.points, q_.points)]
+            if dev.probe_points is not None and cp_.probe_points is not None and np.shares_memory(cp_.probe_points, dev.probe_points):
+                shared_.append("probe_points")
+            if cp_.layer is dev.layer:
+                shared_.append("layer")
+            if dev.probe_points is not None and cp_.probe_points is not None:
+                keep_ = dev.probe_points.copy()
+                cp_.probe_points[0] = cp_.probe_points[0] + 0.125
+                if not np.array_equal(dev.probe_points, keep_):
+                    shared_.append("probe_points (an edit of the copy reached the original)")
+                    dev.probe_points[:] = keep_
+            if shared_:
+                ctx.fail("aliasing:device-copy", f"Device.copy(with_mesh={wm_}) shares {shared_} with the original", dict(device=kind, shared=shared_))
         # device-level transforms: every polygon and the probe points move together, the original is untouched
         before = [p_.points.copy() for p_ in dev.polygons]
         pp0 = None if dev.probe_points is None else dev.probe_points.copy()
